@@ -4,6 +4,7 @@ import (
 	"encoding/json"
 	"fmt"
 	"sort"
+	"strings"
 
 	"verifsim/core"
 	"verifsim/driver"
@@ -140,10 +141,24 @@ func genCase(t *core.Tape, opt core.RunOpt) *Case {
 				ids = append(ids, id)
 			}
 			sort.Ints(ids)
+			// same type NAME from several packages in one file of the importer?
+			type fk struct {
+				pkg        int
+				file, name string
+			}
+			deps := map[fk]map[int]bool{}
+			for _, u := range m.Uses {
+				k := fk{u.Pkg, u.File, u.Type}
+				if deps[k] == nil {
+					deps[k] = map[int]bool{}
+				}
+				deps[k][u.Dep] = true
+			}
 			for _, id := range ids {
 				u := m.Uses[id]
 				c.SibPairs = append(c.SibPairs, SibPair{
-					UserPkg: w.Pkgs[u.Pkg].Path, UserFile: u.File, UserLine: u.Line,
+					NameClash: len(deps[fk{u.Pkg, u.File, u.Type}]) > 1,
+					UserPkg:   w.Pkgs[u.Pkg].Path, UserFile: u.File, UserLine: u.Line,
 					DeclPkg: w.Pkgs[u.Dep].Path, SibFile: locs[id].File, SibLine: locs[id].Line, Stmt: u.Text + " [type " + u.Type + "]",
 				})
 			}
@@ -220,8 +235,9 @@ func pkgoExpectations(w *world.World, m *world.Meta) []PkgoExpectation {
 		if td == nil {
 			continue
 		}
+		shape := strings.TrimPrefix(u.Shape, "ctorfn-")
 		switch {
-		case typeMention[u.Shape]:
+		case typeMention[shape]:
 			if notAllowed(td.PkgOnly, user) {
 				k := fk{u.Pkg, u.File}
 				if reported[k] == nil {
@@ -234,7 +250,7 @@ func pkgoExpectations(w *world.World, m *world.Meta) []PkgoExpectation {
 					pe.Why += fmt.Sprintf("first mention of type %s in this file, lists %v; ", td.Name, td.PkgOnly)
 				}
 			}
-		case u.Shape == "call-func":
+		case shape == "call-func":
 			if notAllowed(decl.FuncPkgOnly, user) {
 				pe.Codes = append(pe.Codes, "PKGO02")
 				pe.Why += fmt.Sprintf("call of %s, lists %v; ", decl.FuncName(), decl.FuncPkgOnly)
@@ -286,6 +302,7 @@ func (e Engine) finish(c *Case, f *failure, h uint64, err error, agg *core.Agg) 
 	if err != nil {
 		panic(err) // infrastructure trouble must never look like a violation
 	}
+	agg.SetRunHash(h)
 	if agg != nil {
 		agg.Inc("worlds")
 		agg.Add("world.packages", int64(len(c.World.Pkgs)))
